@@ -4,6 +4,7 @@ import RV.C15.LemmasAlg
 import RV.C15.LemmasInit2
 import RV.C15.LemmasTD2
 import RV.C15.LemmasTD3
+import RV.C15.LemmasIri
 /-
   C15 — property theorems (statements first, as `def Statement_… : Prop`, then the proofs).
 
@@ -460,6 +461,42 @@ theorem initbindings_values_td_needs_outermost_binding :
       showRows (evalValuesT g κ [0, 1, 2] [(.var 0, .const 10, .var 1)] tails) := by
   decide
 
+/-! ## 8. BASE-relative spelling, resolved as rdflib resolves it (`URIRef(iri, base=…)` → CPython's `urljoin`) -/
+
+/-- (a) Under a BASE whose path is a directory (`scheme://authority/d1/…/dk/`, plain segments, no query or fragment; any
+    scheme `urljoin` resolves against) a reference that is one plain segment denotes BASE ++ reference: the IRI that
+    the full spelling denotes and that the prefixed name `p:loc` denotes when `p` is bound to the BASE string — stated on
+    the parsed components (`joinParts` = `urljoin` after its two `urlparse` calls; the parser is tied to the
+    implementation by the `iri` stream).  (b) A reference that contains ":" is never resolved: it is its own full
+    spelling whatever the BASE.  (c) Without a BASE nothing is resolved. -/
+def Statement_base_relative_spelling : Prop :=
+  (∀ (scheme netloc : Iri.S) (dirs : List Iri.S) (loc : Iri.S), Iri.usesRelative.contains scheme = true →
+      (∀ d ∈ dirs, Iri.PlainSeg d) → Iri.PlainSeg loc →
+      Iri.joinParts ⟨scheme, netloc, Iri.joinSlash ([] :: dirs ++ [[]]), [], [], []⟩ ⟨scheme, [], loc, [], [], []⟩ =
+        some (Iri.unparse ⟨scheme, netloc, Iri.joinSlash ([] :: dirs ++ [[]]), [], [], []⟩ ++ loc)) ∧
+  (∀ (pr : Prologue) (iri : List Nat), iri.contains Iri.cColon = true →
+      resolve1 pr (.rel iri) = resolve1 pr (.full iri)) ∧
+  (∀ (pfx : List (Nat × List Nat)) (iri : List Nat), resolve1 { base := [], prefixes := pfx } (.rel iri) = some iri)
+
+theorem base_relative_spelling : Statement_base_relative_spelling :=
+  ⟨fun scheme netloc dirs loc hs hd hl => Iri.joinParts_plain scheme netloc dirs loc hs hd hl,
+   fun pr iri h => by simp only [resolve1, Iri.absolutize_colon pr.base iri h],
+   fun pfx iri => by simp only [resolve1, Iri.absolutize_nobase]⟩
+
+/-- the string-level pipeline on concrete instances (`ws://e/n/` is BASE): a plain reference is appended, dot segments
+    are removed, an empty middle segment of the merged path is dropped (CPython, not RFC 3986), a trailing "#" that
+    `urljoin` loses is put back by `URIRef.__new__`, a reference with ":" is left alone, an unknown scheme resolves
+    nothing -/
+theorem absolutize_instances :
+    let base : List Nat := [119, 115, 58, 47, 47, 101, 47, 110, 47]
+    Iri.absolutize base [97] = base ++ [97] ∧
+    Iri.absolutize base [46, 46, 47, 98] = [119, 115, 58, 47, 47, 101, 47, 98] ∧
+    Iri.absolutize base [97, 47, 47, 98] = base ++ [97, 47, 98] ∧
+    Iri.absolutize base [97, 35] = base ++ [97, 35] ∧
+    Iri.absolutize base [97, 58, 98] = [97, 58, 98] ∧
+    Iri.absolutize [120, 121, 58, 47, 47, 101, 47, 110, 47] [97] = [97] := by
+  decide
+
 /-! ## non-vacuity: the hypotheses are met by concrete, non-trivial instances -/
 
 example : ExactlyOnce (graphStore [(1, 2, 3), (4, 2, 3), (3, 2, 1)]) [(1, 2, 3), (4, 2, 3), (3, 2, 1)] :=
@@ -545,5 +582,15 @@ example :
       showRows (evalInitT g κ [0, 1, 2, 3] [(.var 0, .const 10, .var 1)] tails) = [[some 1, some 2, some 5, some 6]] ∧
       showRows (evalValuesT g κ [0, 1, 2, 3] [(.var 0, .const 10, .var 1)] tails) = [[some 1, some 2, some 5, some 6]] := by
   decide
+
+/-- a sub-SELECT under a lazy join: its un-projected variable `?1` is not correlated with the outer `?1` (the
+    sub-select runs in a cleaned context), its projected `?0` is joined; same answers with the outer BGP permuted -/
+example :
+    let ds : DSet := { dflt := graphStore [(1, 10, 2), (3, 10, 4), (1, 11, 5)], named := [] }
+    let q : P 2 := .join (.bgp [(.var 0, .const 10, .var 1), (.var 0, .const 10, .var 1)])
+                         (.sub [0] (.bgp [(.var 0, .const 11, .var 1)]))
+    RwB q (.join (.bgp [(.var 0, .const 10, .var 1), (.var 0, .const 10, .var 1)]) (.sub [0] (.bgp [(.var 0, .const 11, .var 1)]))) ∧
+      showRows (evalSelectTD ds Row.empty [0, 1] q) = [[some 1, some 2]] := by
+  exact ⟨.refl _, by decide⟩
 
 end RV.C15
